@@ -475,3 +475,12 @@ Proof.
   intros H. specialize (H (HIpv4 4294967296000) I). cbn [host_display] in H.
   inversion H as [|x l Hx _]; subst. unfold ok_byte in Hx. vm_compute in Hx. destruct Hx as [_ Hx]. apply Hx. reflexivity.
 Qed.
+
+(* (d) the gate of C05_components_step for Url::set_host(Some _) asks host_disp_ok hd h for EVERY value h of the
+   model type.  Display is the identity on domains, so a "domain" that no parser returns (":") fails it;
+   model_host_disp_ok is the clause for the hosts the parsers return and for address values. *)
+Theorem host_disp_ok_all_refuted : ~ (forall h, host_disp_ok host_display h).
+Proof.
+  intros H. specialize (H (HDomain [58])). unfold host_disp_ok in H. cbn in H.
+  destruct H as (c & r & E & Hc & _). inversion E; subst. apply Hc. reflexivity.
+Qed.
